@@ -45,6 +45,9 @@ ASSUMPTIONS = [
     "relation between the classes raised and the classes caught other than `except Exception`",
     "keyword names of one call are distinct (Python guarantees it)",
     "objects lent to the peer stay lent for the duration of the computation (no release race inside one call tree: C10)",
+    "repr() text of a non-serializable exception argument that lists a hash container (frozenset / set / dict) is "
+    "compared as a multiset of characters: a frozenset that crossed the connection is an equal copy whose iteration "
+    "order may differ",
 ]
 EXPLANATION = (
     "Theorems: evalDist_eq_evalLocal (for every program, entry, arguments and fuel the distributed big-step semantics "
